@@ -589,6 +589,34 @@ func (in *inst) exec(e *event) string {
 			pid := atoi(e.f[0])
 			in.begin(pid, false)
 			ret = errName(in.coord.VerifRemoveNamespaceFromNode(in.reg.stored(pid), in.nodeID(atoi(e.f[1]))))
+		case "W":
+			// W pid k snap place : addNodeToNamespaceAndWaitReady with a STALE snapshot - between the caller's snapshot
+			// and the call, replica k is added concurrently (bare addNamespaceToNode, as the namespace check would)
+			pid := atoi(e.f[0])
+			snap := in.reg.stored(pid)
+			in.begin(pid, false)
+			in.coord.VerifAddNamespaceToNode(in.reg.stored(pid), in.nodeID(atoi(e.f[1])))
+			var sn []int
+			for _, n := range snap.RaftNodes {
+				sn = append(sn, kOf(n))
+			}
+			e.f[2] = joinInts(sn)
+			cur := in.coord.VerifGetCurrentNodes(nil)
+			pl := in.placeLists(cur)
+			e.f[3] = pl
+			if pl != "x" && pl != "panic" && pl != "nondet" {
+				e.f[3] = "x"
+				if ps := strings.Split(pl, "|"); pid < len(ps) {
+					e.f[3] = ps[pid]
+				}
+			}
+			closed := make(chan struct{})
+			close(closed)
+			_, err := in.coord.VerifAddNodeToNamespaceAndWaitReady(closed, snap, pdnode_coord.VerifGetNodeNameList(cur))
+			ret = "ok"
+			if err != nil {
+				ret = "regerr"
+			}
 		case "F":
 			pid := atoi(e.f[0])
 			in.begin(pid, false)
